@@ -19,7 +19,7 @@ Spec symbols:
                                                        hval(a,k,q) = a[k] + 2*hval(a,k+1,q); hval(a,0,q) = sum_b a[b] 2^b.
 Theory groups added here (exercised by lemmas/spotcheck.py through lemmas/spotcheck_ext_qtt.py):
   'hval'     the recursive definition above (two-variable pattern, no matching loop)
-  'mulpow2'  mulI(a, 2^(k+1)) = 2 mulI(a, 2^k)  (both orientations of the canonical product)
+  'mulpow2'  mulI(a, 2^(k+1)) = 2 mulI(a, 2^k)  (both orientations of the canonical product);  mulI(a, 2) = mulI(2, a) = 2a
   'mulIdef'  mulI(a, b) = a*b  - NEVER put into an e-matching axiom set; single instances are passed as hints to
              quantifier-free arithmetic lemmas (int(len / q) = d).
 """
@@ -58,6 +58,7 @@ T.GROUPS['mulpow2'] = [
         [z3.MultiPattern(T.mulI(_m, T.pow2(_j)), T.mulI(_m, T.pow2(_k)))]),
     T.A([_m, _k, _j], z3.Implies(z3.And(_k >= 0, _j == _k + 1), T.mulI(T.pow2(_j), _m) == 2 * T.mulI(T.pow2(_k), _m)),
         [z3.MultiPattern(T.mulI(T.pow2(_j), _m), T.mulI(T.pow2(_k), _m))]),
+    T.A([_m], z3.And(T.mulI(_m, 2) == 2 * _m, T.mulI(2, _m) == 2 * _m), [T.mulI(_m, 2), T.mulI(2, _m)]),
 ]
 T.GROUPS['mulIdef'] = [
     T.A([_m, _k], T.mulI(_m, _k) == _m * _k, [T.mulI(_m, _k)]),
@@ -70,6 +71,20 @@ def mulI_instance(term):
         a, b = term.children()
         return term == a * b
     return z3.BoolVal(True)
+
+
+def pats(*terms):
+    """[MultiPattern(terms)] if every term is built from uninterpreted symbols and selects only (a usable trigger), else []
+    (for quantified GOALS, where the trigger is irrelevant, over denotations that contain if-then-else)."""
+    def ok(t):
+        if z3.is_var(t) or z3.is_const(t) and t.decl().kind() == z3.Z3_OP_UNINTERPRETED:
+            return True
+        if z3.is_app(t) and t.decl().kind() in (z3.Z3_OP_UNINTERPRETED, z3.Z3_OP_SELECT):
+            return all(ok(c) or z3.is_int_value(c) for c in t.children())
+        return False
+    if not all(ok(t) for t in terms):
+        return []
+    return [terms[0] if len(terms) == 1 else z3.MultiPattern(*terms)]
 
 
 def on(ex):
@@ -86,15 +101,16 @@ class IMat(VArr):
 
 
 class IBlk(VArr):
-    def __init__(self, shape, ent, nblk=None, bw=None, arr=None, fac=None):
+    """`blkarr(s, k)`: block k of row s as a z3 array Int -> Int (None when the blocks are not at hand as arrays)."""
+    def __init__(self, shape, ent, nblk=None, bw=None, blkarr=None, fac=None):
         super().__init__(shape, None, 'iblk', 'i')
-        self.ent, self.nblk, self.bw, self.arr, self.fac = ent, nblk, bw, arr, fac
+        self.ent, self.nblk, self.bw, self.blkarr, self.fac = ent, nblk, bw, blkarr, fac
 
 
 class IBVec(VArr):
-    def __init__(self, shape, ent, nblk, bw, arr=None):
+    def __init__(self, shape, ent, nblk, bw, blkarr=None):
         super().__init__(shape, None, 'ibvec', 'i')
-        self.ent, self.nblk, self.bw, self.arr = ent, nblk, bw, arr
+        self.ent, self.nblk, self.bw, self.blkarr = ent, nblk, bw, blkarr
 
 
 class VUnr:
@@ -103,26 +119,53 @@ class VUnr:
         self.v, self.q, self.order = v, q, order
 
 
-def imat_of(arr, rows, cols):
-    """IMat whose entries are those of the z3 array `arr` (sort IM: row -> column -> int)."""
-    return IMat((rows, cols), lambda s, c: arr[s][c], rowarr=lambda s: arr[s])
+def rows_fn(name):
+    """Uninterpreted family of integer rows: f(s) is a z3 array Int -> Int."""
+    return z3.Function(name, I, IA)
 
 
-def iblk_of(arr, rows, nblk, bw, ncols=None):
-    """IBlk whose blocks are those of the z3 array `arr` (sort IB: row -> block -> offset -> int)."""
-    return IBlk((rows, ncols if ncols is not None else T.mul_canon(nblk, bw)), lambda s, k, b: arr[s][k][b], nblk, bw, arr=arr)
+def blocks_fn(name):
+    """Uninterpreted family of blocks: f(s, k) is a z3 array Int -> Int (block k of row s)."""
+    return z3.Function(name, I, I, IA)
 
 
-def ibvec_of(arr, nblk, bw, n=None):
-    return IBVec((n if n is not None else T.mul_canon(nblk, bw),), lambda k, b: arr[k][b], nblk, bw, arr=arr)
+def imat_of(f, rows, cols):
+    """IMat whose rows are f(s) (f from rows_fn)."""
+    return IMat((rows, cols), lambda s, c: f(s)[c], rowarr=lambda s: f(s))
+
+
+def iblk_of(f, rows, nblk, bw, ncols=None):
+    """IBlk whose blocks are f(s, k) (f from blocks_fn)."""
+    return IBlk((rows, ncols if ncols is not None else T.mul_canon(nblk, bw)), lambda s, k, b: f(s, k)[b], nblk, bw,
+                blkarr=lambda s, k: f(s, k))
+
+
+def ibvec_of(f, nblk, bw, n=None):
+    """IBVec whose blocks are f(k) (f from rows_fn)."""
+    return IBVec((n if n is not None else T.mul_canon(nblk, bw),), lambda k, b: f(k)[b], nblk, bw, blkarr=lambda k: f(k))
+
+
+class FnArr:
+    """Denotation of an integer vector by an uninterpreted function Int -> Int, subscriptable like a z3 array.  (A z3 array
+    would make the array theory enumerate `v[x]` for every index term x of every other integer array, and each of these
+    selects instantiates the pointwise definition of v - a matching loop through the theory.)"""
+    def __init__(self, f):
+        self.f = f
+
+    def __getitem__(self, i):
+        return self.f(Z(i))
+
+    def sort(self):
+        return IA
 
 
 def ivec_of(ex, st, n, f, name='iv'):
-    """1-D integer vector with entries f(s): a fresh z3 array with its pointwise definition."""
+    """1-D integer vector with entries f(s): a fresh function with its pointwise definition."""
     s = z3.Int('s!q')
-    arr = ex.fresh(name, IA)
-    st.assume(z3.ForAll([s], arr[s] == f(s), patterns=[arr[s]]))
-    return VArr((n,), arr, 'ivec', 'i')
+    ex.cnt += 1
+    g = z3.Function(f'{name}!{ex.cnt}', I, I)
+    st.assume(z3.ForAll([s], g(s) == f(s), patterns=[g(s)]))
+    return VArr((n,), FnArr(g), 'ivec', 'i')
 
 
 def is_ivec(v):
@@ -216,13 +259,14 @@ def arr_index(ex, st, a, sl_, node):
         if _full(e0) and block_slice(e1) is not None:
             i = _block_access(ex, st, a, e1, node)
             return IMat((a.shape[0], a.bw), lambda s, b: a.ent(s, i, b),
-                        rowarr=(lambda s: a.arr[s][i]) if a.arr is not None else None)
+                        rowarr=(lambda s: a.blkarr(s, i)) if a.blkarr is not None else None)
         if _full(e1) and not isinstance(e0, ast.Slice) and a.bw is not None:
             iv = ex.ev(e0, st)
             if is_num(iv) and is_intsort(iv):
                 i = Z(M.norm_index(ex, st, iv, a.shape[0], node, 'row-index'))
                 used('A[i, :] of an integer matrix in block view -> its i-th row in block view')
-                return IBVec((a.shape[1],), lambda k, b: a.ent(i, k, b), a.nblk, a.bw, arr=a.arr[i] if a.arr is not None else None)
+                return IBVec((a.shape[1],), lambda k, b: a.ent(i, k, b), a.nblk, a.bw,
+                             blkarr=(lambda k: a.blkarr(i, k)) if a.blkarr is not None else None)
     return _orig_index(ex, st, a, sl_, node)
 
 
@@ -262,7 +306,7 @@ def method(ex, st, recv, name, args, kwargs, node):
         if isinstance(r, IBVec):
             used('v.reshape(1, -1) -> the 1 x len(v) matrix whose only row is v')
             return IBlk((1, r.shape[0]), lambda s, k, b: r.ent(k, b), r.nblk, r.bw,
-                        arr=z3.K(I, r.arr) if r.arr is not None else None)
+                        blkarr=(lambda s, k: r.blkarr(k)) if r.blkarr is not None else None)
         if on(ex) and is_ivec(r):
             used('v.reshape(1, -1) -> the 1 x len(v) matrix whose only row is v')
             return IMat((1, r.shape[0]), lambda s, c: r.t[c], rowarr=lambda s: r.t)
@@ -330,7 +374,7 @@ def _dims_all_two(ex, st, dims, node, what):
         k = z3.Int('k!dq')
         if not (z3.is_K(dims.arr) and z3.is_int_value(dims.arr.arg(0)) and dims.arr.arg(0).as_long() == 2):
             ex.oblige(st, 'call-pre', f'{what}: every dimension is 2',
-                      z3.ForAll([k], z3.Implies(z3.And(0 <= k, k < dims.n), dims.arr[k] == 2)), node)
+                      z3.ForAll([k], z3.Implies(z3.And(0 <= k, k < dims.n), dims.arr[k] == 2)), node, assume=False)
         return dims.n
     raise Unsupported(f'{what}: dims argument')
 
@@ -355,7 +399,7 @@ def m_unravel(ex, st, args, kwargs, node):
     used("np.unravel_index(v, [2]*q, order='F')[j][s] = bit j of v[s] (order='C': bit q-1-j); requires 0 <= v[s] < 2^q")
     s = z3.Int('s!u')
     ex.oblige(st, 'call-pre', 'unravel_index: every index lies in [0, 2^q)',
-              z3.ForAll([s], z3.Implies(z3.And(0 <= s, s < Z(v.shape[0])), z3.And(v.t[s] >= 0, v.t[s] < T.pow2(Z(q))))), node)
+              z3.ForAll([s], z3.Implies(z3.And(0 <= s, s < Z(v.shape[0])), z3.And(v.t[s] >= 0, v.t[s] < T.pow2(Z(q))))), node, assume=False)
     return VUnr(v, Z(q), o)
 
 
@@ -396,12 +440,168 @@ def m_ravel(ex, st, args, kwargs, node):
     ex.oblige(st, 'call-pre', 'ravel_multi_index: one row of digits per dimension', R == Z(q), node)
     b, c = z3.Ints('b!r c!r')
     ex.oblige(st, 'call-pre', 'ravel_multi_index: every digit is 0 or 1',
-              z3.ForAll([b, c], z3.Implies(z3.And(0 <= b, b < R, 0 <= c, c < C), z3.And(X.ent(b, c) >= 0, X.ent(b, c) <= 1))), node)
+              z3.ForAll([b, c], z3.Implies(z3.And(0 <= b, b < R, 0 <= c, c < C), z3.And(X.ent(b, c) >= 0, X.ent(b, c) <= 1))), node, assume=False)
     if o == 'F' and X.colarr is not None:
         col = X.colarr
     else:
-        fam = ex.fresh('digits', IM)
+        ex.cnt += 1
+        fam = rows_fn(f'digits!{ex.cnt}')
         f = (lambda b_, c_: X.ent(b_, c_)) if o == 'F' else (lambda b_, c_: X.ent(R - 1 - b_, c_))
-        st.assume(z3.ForAll([c, b], fam[c][b] == f(b, c), patterns=[fam[c][b]]))
-        col = lambda c_: fam[c_]
+        st.assume(z3.ForAll([c, b], fam(c)[b] == f(b, c), patterns=[fam(c)[b]]))
+        col = lambda c_: fam(c_)
     return ivec_of(ex, st, X.shape[1], lambda c_: hval(col(c_), 0, R), 'ravel')
+
+
+# ----------------------------------------------------------------------------------------------
+# reshapes with one inferred dimension (shape level)
+
+_orig_reshape = M.reshape
+
+
+def _eq(ex, st, a, b):
+    return quick_unsat(list(ex.axioms) + list(st.pc) + [Z(a) != Z(b)])
+
+
+def _is_m1(x):
+    return isinstance(x, int) and x == -1
+
+
+def reshape(ex, st, a, shp, order, node):
+    if on(ex) and isinstance(a, VArr) and a.tag != 'kcprod':
+        dims = M.shape_arg(ex, st, shp, node)
+        pos = lambda *xs: ex.oblige(st, 'call-pre', 'reshape-with-an-inferred-dimension-needs-positive-given-dimensions',
+                                    z3.And([Z(x) >= 1 for x in xs]), node)
+        if a.ndim == 4 and len(dims) == 3 and _is_m1(dims[1]) and not _is_m1(dims[0]) and not _is_m1(dims[2]) \
+                and _eq(ex, st, dims[0], a.shape[0]) and _eq(ex, st, dims[2], a.shape[3]):
+            used('reshape of an (a, b, c, e) array to (a, -1, e) -> (a, b*c, e)')
+            pos(dims[0], dims[2])
+            return VArr((dims[0], T.mul_canon(a.shape[1], a.shape[2]), dims[2]), None, None)
+        if a.ndim == 3 and len(dims) == 2 and _is_m1(dims[0]) and not _is_m1(dims[1]) and _eq(ex, st, dims[1], a.shape[2]):
+            used('reshape of an (a, b, c) array to (-1, c) -> (a*b, c)')
+            pos(dims[1])
+            return VArr((T.mul_canon(a.shape[0], a.shape[1]), dims[1]), None, None)
+        if a.ndim == 2 and len(dims) == 3 and _is_m1(dims[0]) and not _is_m1(dims[1]) and not _is_m1(dims[2]) \
+                and _eq(ex, st, a.shape[1], T.mul_canon(dims[1], dims[2])):
+            used('reshape of an (a, b*c) array to (-1, b, c) -> (a, b, c)')
+            pos(dims[1], dims[2])
+            return VArr((a.shape[0], dims[1], dims[2]), None, None)
+        if a.ndim == 2 and len(dims) == 3 and _is_m1(dims[2]) and not _is_m1(dims[0]) and not _is_m1(dims[1]) \
+                and _eq(ex, st, a.shape[0], T.mul_canon(dims[0], dims[1])):
+            used('reshape of an (a*b, c) array to (a, b, -1) -> (a, b, c)')
+            pos(dims[0], dims[1])
+            return VArr((dims[0], dims[1], a.shape[1]), None, None)
+    return _orig_reshape(ex, st, a, shp, order, node)
+
+
+M.reshape = reshape
+
+
+# ----------------------------------------------------------------------------------------------
+# lists of cores in block view:  Y[k*q:(k+1)*q]
+
+_NOARR = z3.Const('blockview!no-flat-array', T.TT)
+
+
+class BSeq(VSeq):
+    """List of nblk*bw TT-cores in block view: `blk(k)` is the z3 array (Int -> Core) of the cores [bw*k, bw*(k+1)).
+    The length is the canonical product nblk*bw.  There is no flat array (`arr` is a placeholder that nothing reads)."""
+    def __init__(self, blk, nblk, bw, n=None):
+        super().__init__(_NOARR, n if n is not None else T.mul_canon(nblk, bw), M.mk_core, tag='core')
+        self.blk, self.nblk, self.bw = blk, nblk, bw
+
+    def get(self, k):
+        raise Unsupported('element access by flat position on a list of cores in block view')
+
+    def copy(self):
+        return BSeq(self.blk, self.nblk, self.bw, self.n)
+
+
+def bseq_of_array(barr, nblk, bw):
+    """BSeq whose blocks are the elements of the z3 array `barr` (sort TTB)."""
+    return BSeq(lambda k: barr[k], nblk, bw)
+
+
+def core_blocks_fn(name):
+    return z3.Function(name, I, T.TT)
+
+
+_orig_subscript = M.subscript
+
+
+def subscript(ex, st, base, sl_, node):
+    b = st.deref(base)
+    if isinstance(b, BSeq):
+        if block_slice(sl_) is None:
+            raise Unsupported(f'access `{ast.unparse(sl_)}` to a list of cores in block view (only whole blocks Y[w*k:w*(k+1)])')
+        wn, inode = block_slice(sl_)
+        w = ex.need_num(st, ex.ev(wn, st), node)
+        i = ex.need_num(st, ex.ev(inode, st), node)
+        used('Y[w*k:w*(k+1)] on a list of nblk*w elements -> new list with the k-th block of w elements (requires 0 <= k < nblk)')
+        ex.oblige(st, 'call-pre', 'block-slice-width-is-the-block-width', Z(w) == Z(b.bw), node)
+        ex.oblige(st, 'safety', 'block-index-in-range', z3.And(Z(i) >= 0, Z(i) < Z(b.nblk), Z(w) >= 0), node)
+        return st.alloc(VSeq(b.blk(Z(i)), Z(b.bw), M.mk_core, tag='core'))
+    if isinstance(b, VSeq) and not isinstance(b, BSeq) and on(ex) and isinstance(sl_, ast.Slice) and sl_.lower is None and sl_.upper is None \
+            and isinstance(sl_.step, ast.UnaryOp) and isinstance(sl_.step.op, ast.USub) and isinstance(sl_.step.operand, ast.Constant) \
+            and sl_.step.operand.value == 1:
+        used('list[::-1] -> new list with the elements in reverse order')
+        k = z3.Int('k!rv')
+        arr = ex.fresh('rev', b.arr.sort())
+        st.assume(z3.ForAll([k], arr[k] == b.arr[b.n - 1 - k], patterns=[arr[k]]))
+        return st.alloc(VSeq(arr, b.n, b.wrap, b.tag))
+    return _orig_subscript(ex, st, base, sl_, node)
+
+
+M.subscript = subscript
+
+
+_orig_empty_seq = M.empty_seq
+
+
+def empty_seq(ex, st, kind):
+    if kind == 'ttblocks':
+        bw = getattr(ex, 'qtt_q', None)
+        if bw is None:
+            raise Unsupported('type hint ttblocks needs the block width (ex.qtt_q)')
+        ex.cnt += 1
+        return st.alloc(BSeq(core_blocks_fn(f'empty!{ex.cnt}'), z3.IntVal(0), bw))
+    return _orig_empty_seq(ex, st, kind)
+
+
+M.empty_seq = empty_seq
+_orig_method2 = M.method
+
+
+def method2(ex, st, recv, name, args, kwargs, node):
+    r = st.deref(recv)
+    if isinstance(r, BSeq):
+        if name == 'extend' and len(args) == 1 and not kwargs:
+            o = st.deref(args[0])
+            if isinstance(o, VSeq) and not isinstance(o, BSeq) and o.tag == 'core':
+                used('list.extend(other) on a list held as blocks of w elements -> one more block (requires len(other) = w)')
+                ex.oblige(st, 'call-pre', 'list-in-block-view-is-extended-by-exactly-one-block', o.n == Z(r.bw), node)
+                old, nb = r.blk, r.nblk
+                nw = ex.fresh('blk', T.TT)
+                st.assume(nw == o.arr)
+                r.blk = lambda k: z3.If(k == nb, nw, old(k))
+                r.nblk = nb + 1
+                r.n = T.mul_canon(r.nblk, r.bw)
+                return NONE
+        raise Unsupported(f'method .{name} on a list of cores in block view')
+    return _orig_method2(ex, st, recv, name, args, kwargs, node)
+
+
+M.method = method2
+_orig_einsum = M.FUNCS['np.einsum']
+
+
+@model('np.einsum')
+def m_einsum_qtt(ex, st, args, kwargs, node):
+    sub = args[0].concrete() if args and isinstance(args[0], VStr) else None
+    if on(ex) and (sub or '').replace(' ', '') == 'ijk,kl' and len(args) == 3 and not kwargs:
+        G, Um = st.deref(args[1]), st.deref(args[2])
+        if isinstance(G, VArr) and G.ndim == 3 and isinstance(Um, VArr) and Um.ndim == 2:
+            used("np.einsum('ijk,kl', G, U) -> core times matrix on the right bond, shape (r1, n, cols U); requires r2(G) = rows(U)")
+            ex.oblige(st, 'call-pre', 'einsum-contracted-dimensions-agree', Z(G.shape[2]) == Z(Um.shape[0]), node)
+            t = T.cmulR(G.t, Um.t) if (G.tag == 'core' and G.t is not None and Um.tag == 'mat' and Um.t is not None) else None
+            return VArr((G.shape[0], G.shape[1], Um.shape[1]), t, 'core' if t is not None else None)
+    return _orig_einsum(ex, st, args, kwargs, node)
